@@ -185,7 +185,7 @@ def run_scenario(run: Run, scen: dict, rng: random.Random):
 
 
 def check(run: Run, tier: str, seed: int):
-    n = 150 if tier == "quick" else 2000
+    n = 300 if tier == "quick" else 2000
     for i in range(n):
         srng = random.Random(f"C16-{seed}-{i}")
         rgs = rand_rg_spec(srng)
